@@ -11,11 +11,12 @@ EXPLANATION = (
     "BIP342's codeseparator_pos is the executed separator's position. R02.2 init-flag discipline: every `assert(execdata.m_X_init)` "
     "reachable from a signature check is backed by an assignment of m_X_init = true that dominates the choice of the TAPROOT / "
     "TAPSCRIPT script version (or the hand-over of execdata to the session), and the only sources of m_codeseparator_pos are the "
-    "0xFFFFFFFF initial value and opcode_pos in OP_CODESEPARATOR. R02.3 digest layout vs spec table (spec/digests.json): the ordered, "
-    "guarded operand sequence streamed in SignatureHashSchnorr, in the WITNESS_V0 branch of SignatureHash, in "
-    "CTransactionSignatureSerializer and in the five Get*SHA256 helpers equals the BIP tables through the binding table; spend_type, "
-    "output_type / input_type, the hash-type validity predicate, the BIP143 sub-hash selection and the legacy serializer's flags are "
-    "tabulated over their finite domains (hash_type 0..255, ext_flag/annex in {0,1}) and compared with the BIP definitions. R02.4 the "
+    "0xFFFFFFFF initial value and opcode_pos in OP_CODESEPARATOR. R02.3 digest layout: SignatureHashSchnorr, SignatureHash (BIP143 and "
+    "legacy), CTransactionSignatureSerializer, the five Get*SHA256 helpers and PrecomputedTransactionData::Init are evaluated to "
+    "Herbrand terms per path (G-SYM: helpers inlined, loops summarised, parameters bound by position) with the hash type bound to each "
+    "of 0..255, the script version to each admissible value, and annex / cache / range conditions forked; the typed stream each path "
+    "hashes must equal the stream BIP341/342, BIP143 and the legacy SIGHASH rules prescribe for that hash type (field names from "
+    "spec/digests.json; exactly the hash types 0..3, 0x81..0x83 produce a BIP341 digest). R02.4 the "
     "two ECDSA call sites run the encoding checks and the signature check in the same order with the same flag/version arguments; "
     "tapscript charges VALIDATION_WEIGHT_PER_SIGOP_PASSED (50) per non-empty signature before the key-type dispatch. ECDSA/Schnorr "
     "verification, FindAndDelete, lax DER parsing and multisig matching order are NOT decided.")
